@@ -22,6 +22,65 @@ def boundary(cap):
     return sorted(set(x for x in base if 0 <= x <= cap))
 
 
+def bomb(depth, breadth, blob_size, extra_blob=None, names=b"f"):
+    """The classic git bomb: [depth] trees, each with [breadth] entries pointing
+    at the previous level; blobs are size-only (served by fakegit)."""
+    import scenario as S
+    s = S.Scenario()
+    b = s.add({"kind": "blob", "size": blob_size, "data": None})
+    prev = s.add({"kind": "tree", "entries": [(0o100644, names + b"%d" % i, b) for i in range(breadth)]})
+    for lvl in range(depth - 1):
+        prev = s.add({"kind": "tree", "entries": [(0o40000, b"d%d" % i, prev) for i in range(breadth)]})
+    top_entries = [(0o40000, b"d%d" % i, prev) for i in range(breadth)]
+    if extra_blob is not None:
+        eb = s.add({"kind": "blob", "size": extra_blob, "data": None})
+        top_entries.append((0o100644, b"zz-huge", eb))
+    top = s.add({"kind": "tree", "entries": top_entries})
+    c = s.add({"kind": "commit", "tree": top, "parents": []})
+    s.refs.append((b"refs/heads/main", c))
+    return s.compute()
+
+
+def bombs(ctx, res):
+    """Composition: repositories whose true values straddle 2^32 and 2^64."""
+    import time
+    import scenario as S
+    import scancheck as SC
+    import scanprops as SP
+    eng = SC.Engine(ctx)
+    quick = ctx["tier"] == "quick"
+    cases = [
+        (10, 10, 6, None),                  # TestBomb shape: blob count 10^10 > 2^32
+        (9, 10, 5, None),                   # just below the 32-bit cap: 10^9 blobs
+        (10, 10, 2**31, None),              # 64-bit total: 10^10 * 2^31 > 2^64
+        (8, 10, 2**31 - 1, None),           # 64-bit total below the cap
+        (33, 2, 1, None),                   # 2^33 blobs by doubling
+        (32, 2, 2**32 - 2, None),           # sizes just below the guard
+        (40, 10, 1000, None),               # depth 40 x breadth 10: 10^40 expanded, 42 distinct objects
+        (3, 3, 7, 5 * 2**30),               # a 5 GiB blob (known finding: clamped before the 64-bit sum)
+        (3, 3, 7, 2**32 - 1),               # exactly the cap
+        (3, 3, 7, 2**32),                   # one above
+    ]
+    if not quick:
+        cases += [(d, b, sz, None) for d in (5, 12, 20, 31, 64) for b in (2, 3, 7, 10) for sz in (0, 1, 2**20, 2**32 - 2)]
+    walls = []
+    try:
+        for depth, breadth, size, extra in cases:
+            sc = bomb(depth, breadth, size, extra)
+            root = len(sc.objects) - 1
+            order = sc.enum_gitlike([root])
+            t0 = time.time()
+            vals = SP.one_case(eng, res, sc, [], [], [], order, S.HIST_KEYS, "bomb", sample=(depth in (10, 40) and size in (6, 1000)))
+            walls.append(round(time.time() - t0, 2))
+            if walls[-1] > 20:
+                res.violations.append(vlib.Violation("bomb of depth %d x breadth %d took %.1fs: not linear in distinct objects"
+                                                     % (depth, breadth, walls[-1]), {"depth": depth, "breadth": breadth}))
+    finally:
+        eng.close()
+    res.coverage_extra["bomb_cases"] = len(cases)
+    res.coverage_extra["bomb_wall_s_max"] = max(walls) if walls else 0
+
+
 def run(ctx):
     rng = random.Random(ctx["seed"])
     res = vlib.Result()
@@ -80,6 +139,7 @@ def run(ctx):
             res.violations.append(vlib.Violation(
                 "saturating arithmetic differs from min(a+b, cap) / max", {"request": api},
                 expected=o2, observed=o1, cls=None))
+    bombs(ctx, res)
     res.coverage_extra["plus_cases_reaching_cap"] = overflowing
     res.coverage_extra["input_distribution"] = {"requests": len(reqs), "random_pairs_per_width": n_rand}
     res.assumptions = ["the Go functions are called through exported API with operands converted from uint64"]
